@@ -21,6 +21,8 @@ pub enum Block {
     Call,
     /// MES write(fd, buf, len): TRAPA #0 with ER0 = 104
     Write { text: Vec<u8>, dram: bool },
+    /// MES write with the buffer at a fixed address (region ends); the bytes are part of the image
+    WriteAt { addr: u32, text: Vec<u8>, fd: u32 },
     /// MES set_handler(vector, handler address of `Handler` entry `handler`)
     SetHandler { vector: u32, handler: usize },
     /// TRAPA #0 with an unsupported call number
@@ -237,6 +239,7 @@ impl GuestSpec {
         let mut block_addr = Vec::new();
         let mut block_end = Vec::new();
         let mut writes = Vec::new();
+        let mut extra_segments: Vec<(u32, Vec<u8>)> = Vec::new();
         for (bi, b) in self.blocks.iter().enumerate() {
             block_addr.push(a.here());
             match b {
@@ -277,6 +280,18 @@ impl GuestSpec {
                     let trapa_pc = a.here();
                     a.trapa(0);
                     writes.push(WriteInfo { block: bi, trapa_pc, buf, len: text.len() as u32, text: text.clone() });
+                }
+                Block::WriteAt { addr, text, fd } => {
+                    let blk = data.here();
+                    data.l(*fd);
+                    data.l(*addr);
+                    data.l(text.len() as u32);
+                    extra_segments.push((*addr, text.clone()));
+                    a.mov_l_imm(0, 104);
+                    a.mov_l_imm(1, blk);
+                    let trapa_pc = a.here();
+                    a.trapa(0);
+                    writes.push(WriteInfo { block: bi, trapa_pc, buf: *addr, len: text.len() as u32, text: text.clone() });
                 }
                 Block::SetHandler { vector, handler } => {
                     let target = hinfo.get(*handler).ok_or("SetHandler: no such handler")?.addr;
@@ -330,6 +345,23 @@ impl GuestSpec {
         let mut segments = vec![(a.base, a.b.clone()), (ha.base, ha.b.clone()), (data.base, data.b.clone())];
         if !big.b.is_empty() {
             segments.push((big.base, big.b.clone()));
+        }
+        for (i, (a1, b1)) in extra_segments.iter().enumerate() {
+            for (a2, b2) in extra_segments.iter().skip(i + 1) {
+                if (*a1 as u64) < *a2 as u64 + b2.len() as u64 && (*a2 as u64) < *a1 as u64 + b1.len() as u64 {
+                    return Err("two WriteAt buffers overlap".into());
+                }
+            }
+        }
+        for (addr, bytes) in extra_segments {
+            if !bytes.is_empty() {
+                let end = addr as u64 + bytes.len() as u64;
+                let ok = (addr >= 0xffbf20 && end <= 0xffff20) || (addr >= 0x400000 && end <= 0x600000);
+                if !ok {
+                    return Err("WriteAt buffer outside RAM/DRAM".into());
+                }
+                segments.push((addr, bytes));
+            }
         }
         // vector table entries
         let mut vt: BTreeMap<u8, u32> = BTreeMap::new();
